@@ -1,6 +1,7 @@
 package main
 
 import (
+	"golang.org/x/tools/go/ssa"
 	"flag"
 	"fmt"
 	"os"
@@ -130,6 +131,20 @@ func main() {
 		switch *discover {
 		case "exhaust":
 			discoverExhaust(p)
+		case "errloop":
+			all := map[string]bool{}
+			for _, k := range analysedPkgs {
+				all[k] = true
+			}
+			errLoopSites(p, all, func(fn *ssa.Function, ev ssa.Value, name string, ok bool) {
+				fmt.Printf("%s %s %s ok=%v\n", p.Pos(ev.Pos()), funcName(fn), name, ok)
+			})
+		case "erruse":
+			discoverErrUse(p, map[string]bool{"database/transaction": true, "updates": true, "server": true, "cache": true, "client": true, "database/inmemory": true, "ovsdb": true, "mapper": true, "model": true, "database": true}, func(fn *ssa.Function, call ssa.Value, iff *ssa.If, used, returns bool) {
+				if !used {
+					fmt.Printf("%s %s used=%v returns=%v\n", p.Pos(iff.Cond.Pos()), funcName(fn), used, returns)
+				}
+			})
 		}
 		return
 	}
